@@ -79,6 +79,44 @@ def gen_mixed_cost(rng, tier):
             "gate_lo": True, "wire_lo": True, "width": 2, "exact": False}
 
 
+def gen_near_tie(rng, tier):
+    """a chain in which the width limit forces one cut and the candidates' overheads differ by a relative 1e-6 .. 1e-5 (or one of them is
+    within 1e-5 of an integer kappa): a flag or a comparison with a loose tolerance picks the dearer one"""
+    import math
+    nq = rng.randint(3, 4)
+    fam = rng.choice(["rzz", "rxx", "ryy", "crz", "cp"])
+    base = rng.choice([0.5, 1.1, math.pi / 2 - 0.002, math.pi / 6])
+    eps = rng.choice([4e-6, -4e-6, 1e-5, 2e-6])
+    angles = [base + eps, base] if rng.random() < 0.5 else [base, base + eps]
+    if rng.random() < 0.6:
+        # the greedy warm start applies the first gate and has to cut the last one: make that the (slightly) dearer of the two
+        nq, angles = 3, [base, base + abs(eps)]
+    instrs = [{"name": fam, "qubits": [k, k + 1], "params": [angles[k % 2]]} for k in range(nq - 1)]
+    if nq > 3 and rng.random() < 0.4:
+        instrs[rng.randrange(len(instrs))] = {"name": "cx", "qubits": instrs[0]["qubits"] if rng.random() < 0.5 else instrs[-1]["qubits"]}
+    return {"nq": nq, "instrs": instrs, "seed": rng.randrange(1 << 30), "max_gamma": 1e6, "max_backjumps": None,
+            "gate_lo": True, "wire_lo": rng.random() < 0.5, "width": 2, "exact": False}
+
+
+def gen_trivial_gate(rng, tier):
+    """a two-qubit gate at an angle where it is the identity up to local phases (kappa exactly 1) sits where the width limit forces a cut:
+    cutting it is free, so the optimum is the product of the other forced cuts only"""
+    import math
+    nq = rng.randint(3, 4)
+    triv = rng.choice([("rzz", 0.0), ("rxx", 0.0), ("cp", 0.0), ("crz", 0.0), ("ryy", 0.0), ("crx", 0.0)])
+    pos = rng.randrange(nq - 1)
+    instrs = []
+    for k in range(nq - 1):
+        if k == pos:
+            instrs.append({"name": triv[0], "qubits": [k, k + 1], "params": [triv[1]]})
+        else:
+            instrs.append({"name": rng.choice(["cx", "cx", "swap", "cz"]), "qubits": [k, k + 1]})
+    if rng.random() < 0.5:
+        instrs.append({"name": "cx", "qubits": [pos, pos + 1] if rng.random() < 0.3 else [0, 1]})
+    return {"nq": nq, "instrs": instrs, "seed": rng.randrange(1 << 30), "max_gamma": 1e6, "max_backjumps": None,
+            "gate_lo": True, "wire_lo": rng.random() < 0.5, "width": rng.choice([2, 2, 3]), "exact": False}
+
+
 def gen_repeat(rng, tier):
     """gates repeated on the same pair (the second one finds both qubits already in one subcircuit) followed by a gate that needs
     a cut; wire cuts only or both kinds; tight width"""
